@@ -746,8 +746,6 @@ theorem replaceChild_spec (n : Node χ) (hw : n.WF) (c : UInt8) (x : χ) :
 
 /-! ## which kind a node has after n insertions -/
 
-def kindFor (n : Nat) : Nat := if n ≤ 4 then 4 else if n ≤ 16 then 16 else if n ≤ 48 then 48 else 256
-
 theorem capOf_eq_kind (n : Node χ) : capOf n = n.kind := by cases n <;> rfl
 
 theorem build_kind (l : List (UInt8 × χ)) (hnd : (l.map (·.1)).Nodup) : (build l).kind = kindFor l.length := by
